@@ -3,7 +3,7 @@
        apply_config_change / add_learner / remove_node / contains_node / can_rejoin / new),
      d-engine-server/src/membership/membership_guard.rs (blocking_write stores the modified clone even when the
        closure returns Err: a BatchPromote that meets an unknown id keeps the promotions made before it),
-     d-engine-core/src/membership.rs                    (is_single_node_cluster = initial_cluster_size == 1),
+     d-engine-core/src/membership.rs                    (is_single_node_cluster = initial_cluster_size == 1 && voters().is_empty()),
      d-engine-core/src/election/election_handler.rs     (broadcast_vote_requests: shortcut, vote counting),
      d-engine-core/src/raft_role/leader_state.rs        (calculate_safe_batch_size, is_learner_caught_up,
        handle_join_cluster / drain_commit_actions NodeJoin on top of DE.LeaderCommit),
@@ -106,8 +106,10 @@ Definition voters (m : mstate) : list N :=
   filter (fun y => negb (y =? m_self m) && is_active (lookup y (m_nodes m))) (keys (m_nodes m)).
 Definition repl_peers (m : mstate) : list N :=
   filter (fun y => negb (y =? m_self m) && is_peer (lookup y (m_nodes m))) (keys (m_nodes m)).
-(* Membership::is_single_node_cluster (trait default, not overridden): initial_cluster_size == 1 *)
-Definition is_single (m : mstate) : bool := m_init m =? 1.
+(* Membership::is_single_node_cluster (trait default, not overridden by RaftMembership), as repaired by the C03 fix:
+   initial_cluster_size == 1 && voters().is_empty(). The previous variant (initial_cluster_size == 1 alone) lives in
+   proofs/C03hist.v as history. *)
+Definition is_single (m : mstate) : bool := (m_init m =? 1) && match voters m with [] => true | _ => false end.
 Definition contains (m : mstate) (y : N) : bool := match lookup y (m_nodes m) with Some _ => true | None => false end.
 Definition can_rejoin (m : mstate) (y role : N) : bool := (role =? R_LEARNER) && negb (contains m y).
 
